@@ -154,7 +154,7 @@ class TranslatorBase(TranslatorAbc):
         if cls.block_template:
             """ guard_name: the file name as an identifier (for preprocessor macros) """
             return cls.block_template.format(content=content, base_name=base_name, nodes=nodes,
-                                             guard_name=re.sub(r"\W", lambda m: "_x%02X_" % ord(m.group(0)), base_name))
+                                             guard_name=re.sub(r"\W|_(?=x)", lambda m: "_x%02X_" % ord(m.group(0)), base_name))
         else:
             return content
 
